@@ -110,7 +110,12 @@ func (s *source) play(ctx context.Context, dest ro.Observer[item]) {
 			// time.Sleep on purpose (not a select on a timer): a sleeping goroutine
 			// keeps the process "not quiescent" for quiesce.Call, so a pause of the
 			// script can never be mistaken for a hang.
-			time.Sleep(st.Gap)
+			if st.Gap < 50*time.Microsecond {
+				for t0 := time.Now(); time.Since(t0) < st.Gap; { // a few microseconds: busy-wait, Sleep is too coarse
+				}
+			} else {
+				time.Sleep(st.Gap)
+			}
 		}
 		if s.stopped() {
 			return
